@@ -244,3 +244,44 @@ pub fn shape_requests(ent: &EntSpec) -> Vec<Vec<(String, Vec<u8>)>> {
     }
     out
 }
+
+pub const MANY_COUNTS: [u64; 10] = [21, 33, 64, 100, 257, 1000, 1024, 1025, 2000, 5000];
+pub const MANY_LAYOUTS: u8 = 7;
+
+/// A Range value with `n` specs on an entity of length `l` (n * 40 < l / 4, so a multipart
+/// answer is mandatory). Layouts: 0 disjoint one-byte ranges, 1 chains (each overlaps the next,
+/// not the one after), 2 descending order, 3 all identical, 4 nested, 5 chains in a shuffled
+/// order, 6 pseudo-random positions and lengths (many partial overlaps, no order).
+pub fn many_ranges(l: u64, n: u64, layout: u8) -> Vec<u8> {
+    let step = (l / 4 / n).clamp(8, 1000);
+    let mut specs: Vec<String> = Vec::with_capacity(n as usize);
+    for i in 0..n {
+        let a = i * step;
+        specs.push(match layout {
+            0 | 2 => format!("{}-{}", a, a),
+            1 => format!("{}-{}", a, a + step + 2),
+            3 => "5-9".to_string(),
+            4 => format!("{}-{}", i, 3 * n - i),
+            5 => format!("{}-{}", a, a + step + 2),
+            _ => {
+                let h = i.wrapping_mul(0x9E37_79B9_7F4A_7C15).rotate_left(17) ^ (n << 7);
+                let a = h % (n * step);
+                format!("{}-{}", a, a + (h >> 40) % (3 * step))
+            }
+        });
+    }
+    if layout == 2 {
+        specs.reverse();
+    }
+    if layout == 5 {
+        // deterministic shuffle
+        let mut x = 0x2545_F491_4F6C_DD1Du64 ^ n;
+        for i in (1..specs.len()).rev() {
+            x ^= x << 13;
+            x ^= x >> 7;
+            x ^= x << 17;
+            specs.swap(i, (x % (i as u64 + 1)) as usize);
+        }
+    }
+    format!("bytes={}", specs.join(if layout % 2 == 0 { "," } else { ", " })).into_bytes()
+}
